@@ -129,11 +129,29 @@ pub fn run(rep: &mut Report, rng: &mut Rng, thorough: bool) {
                     let o = gen_xzopts(&mut r, 1 << 20, data.len());
                     let detail = || json!({"direction": "ours->liblzma", "format": "xz", "opts": o.json(), "data_kind": kind, "data_len": data.len(), "partition": pstyle, "data_fnv": fnv(&data), "case": i});
                     match xz_compress(&data, &o, &parts, 0) {
-                        Outcome::Ok(c) => match lref::xz_decode(&c, cap) {
+                        Outcome::Ok(c) => {
+                          if c.len() <= 40_000 {
+                              // the strict format decoder (proved to accept the writer model's output) on the REAL writer's bytes
+                              rep.model(format!("xz.strict in={} cap={}", hex(&c), cap), format!("ok {} {} {}", data.len(), fnv(&data), c.len()));
+                              // structure-aware mutants with recomputed CRCs: strict model and liblzma must give the same verdict
+                              for _ in 0..3 {
+                                  let mut m = c.clone();
+                                  let p = r.below(m.len() as u64) as usize;
+                                  m[p] = match r.below(3) { 0 => m[p] ^ (1 << r.below(8)), 1 => m[p].wrapping_add(1), _ => r.next() as u8 };
+                                  crate::c06::xz_fix_crcs(&c, &mut m);
+                                  if m != c {
+                                      let verdict = if lref::xz_decode(&m, cap).is_ok() { "ok" } else { "err" };
+                                      rep.model(format!("xz.strict verdict=1 in={} cap={}", hex(&m), cap), verdict.to_string());
+                                      rep.count(&format!("strict-vs-liblzma.{verdict}"));
+                                  }
+                              }
+                          }
+                          match lref::xz_decode(&c, cap) {
                             Ok(out) if out == data => {}
                             Ok(_) => rep.fail("ref-xz-different-data", "liblzma decodes our .xz to different data", detail()),
                             Err(e) => rep.fail(&format!("ref-xz-rejects:len{}:f{}", size_class(data.len()), o.filters.len()), &format!("liblzma rejects our .xz: {e}"), detail()),
-                        },
+                          }
+                        }
                         other => rep.fail(&format!("xz-write-{}", other.class()), &other.describe(), detail()),
                     }
                     rep.case(format!("o2r:xz:{}:{}:{}", kind, size_class(data.len()), o.sig()), !data.is_empty(), || detail());
@@ -201,6 +219,7 @@ pub fn run(rep: &mut Report, rng: &mut Rng, thorough: bool) {
                                 other => rep.fail(&format!("ours-xz-rejects:f{}", fs.len()), &format!("we reject liblzma's .xz: {}", other.describe()), detail()),
                             }
                             if c.len() <= 60_000 && data.len() <= 60_000 {
+                                rep.model(format!("xz.strict in={} cap={}", hex(&c), cap), format!("ok {} {} {}", data.len(), fnv(&data), c.len()));
                                 rep.model(crate::cont::model_req("xz", false, &c, cap), crate::cont::canon(&xz_decompress(&c, false, &[4096], cap)));
                             }
                         }
